@@ -1,3 +1,65 @@
-import Orda.Model.Api
+/-
+C04 — List (and array) elements are never duplicated, lost, resurrected or reordered.
+Theorems about the RGA model (list.go / ordered.go); document arrays use the same skip rule
+(Model/Doc calls the same `insertAfterId`), their lifting to whole documents is not yet proved.
+-/
+import Orda.Proofs.Rga
 namespace Orda.Props.C04
+open Orda
+
+/-- never reordered on a replica, at any moment: applying an insert only ADDS elements — the old
+    identity sequence is a sublist of the new one (deletes and updates keep it unchanged, below) -/
+theorem insert_only_adds (s : Rga) (o : InsOp) : s.ids.Sublist (s.applyIns o).ids := applyIns_sublist s o
+
+/-- present exactly once wherever its insert was applied: exactly the batch identities are added … -/
+theorem insert_adds_exactly_batch (s : Rga) (o : InsOp) (h : o.anchor = Ts.oldest ∨ o.anchor ∈ s.ids) :
+    (s.applyIns o).ids.Perm (o.ids ++ s.ids) := applyIns_perm s o h
+/-- … and no identity ever occurs twice -/
+theorem no_duplicates (ops : List InsOp) (hc : InsCausal ops) : (Rga.empty.applyAllIns ops).ids.Nodup :=
+  rga_ids_nodup ops hc
+
+/-- same relative order on every replica: two replicas that applied the same inserts, each in any
+    causal order, hold the SAME sequence; together with `insert_only_adds` every intermediate state of
+    every replica is a subsequence of that common sequence, so any two elements have the same relative
+    order everywhere and at every moment -/
+theorem same_order_everywhere (ops ops' : List InsOp) (hp : ops.Perm ops')
+    (hc : InsCausal ops) (hc' : InsCausal ops') :
+    (Rga.empty.applyAllIns ops).ids = (Rga.empty.applyAllIns ops').ids := rga_converge ops ops' hp hc hc'
+
+/-- corollary: relative order of two elements in a prefix state agrees with the final order -/
+theorem prefix_order_agrees (ops more : List InsOp) (x y : Ts) :
+    [x, y].Sublist (Rga.empty.applyAllIns ops).ids → [x, y].Sublist (Rga.empty.applyAllIns (ops ++ more)).ids := by
+  intro h
+  have hsub : (Rga.empty.applyAllIns ops).ids.Sublist (Rga.empty.applyAllIns (ops ++ more)).ids := by
+    unfold Rga.applyAllIns
+    rw [List.foldl_append]
+    generalize List.foldl Rga.applyIns Rga.empty ops = s
+    induction more generalizing s with
+    | nil => exact List.Sublist.refl _
+    | cons o rest ih => exact (applyIns_sublist s o).trans (ih (s.applyIns o))
+  exact h.trans hsub
+
+/-- a local insert at index i is the remote application of its own operation (hence readable at i,
+    and every replica places it identically) in every state reached by a causal insert history -/
+theorem local_insert_is_remote (ops : List InsOp) (hc : InsCausal ops)
+    (pos : Nat) (ts : Ts) (vs : List JVal) (a : Ts) (s' : Rga)
+    (hnew : ∀ n ∈ (Rga.empty.applyAllIns ops).nodes, n.o.cmp ts = .lt)
+    (h : (Rga.empty.applyAllIns ops).insertLocal pos ts vs = .ok (s', a)) :
+    (Rga.empty.applyAllIns ops).insertRemote a ts vs = .ok s' :=
+  insertLocal_eq_insertRemote_reachable ops hc pos ts vs a s' hnew h
+
+/-- never lost, never resurrected: deletes and updates keep the identity sequence; a deleted element
+    stays deleted whatever arrives later; a delete always wins over a live value -/
+theorem delete_keeps_sequence (s : Rga) (tg : List Ts) (ts : Ts) : (s.deleteRemote tg ts).ids = s.ids :=
+  deleteRemote_ids s tg ts
+theorem update_keeps_sequence (s s' : Rga) (tg : List Ts) (vs : List JVal) (ts : Ts)
+    (h : s.updateRemote tg vs ts = .ok s') : s'.ids = s.ids := updateRemote_ids s s' tg vs ts h
+theorem deleted_stays_deleted (s s' : Rga) (tg : List Ts) (vs : List JVal) (ts : Ts) (x : Ts)
+    (h : ∃ n ∈ s.nodes, n.o = x ∧ n.v = none) :
+    (∃ n ∈ (s.deleteRemote tg ts).nodes, n.o = x ∧ n.v = none) ∧
+    (s.updateRemote tg vs ts = .ok s' → ∃ n ∈ s'.nodes, n.o = x ∧ n.v = none) :=
+  ⟨deleteRemote_keeps_tomb s tg ts x h, fun hu => updateRemote_keeps_tomb s s' tg vs ts x hu h⟩
+theorem delete_wins (s : Rga) (tg : List Ts) (ts : Ts) (x : Ts) (hx : x ∈ tg) (hn : s.ids.Nodup) (hin : x ∈ s.ids) :
+    ∃ n ∈ (s.deleteRemote tg ts).nodes, n.o = x ∧ n.v = none := deleteRemote_kills s tg ts x hx hn hin
+
 end Orda.Props.C04
